@@ -8,7 +8,8 @@ FlagSets == { {}, {"L"}, {"U"}, {"L","U"}, {"G"}, {"G","L"}, {"G","U"}, {"G","L"
 Flags4 == { {}, {"L"}, {"U"}, {"L","U"}, {"G","L"}, {"G","U"}, {"N","U"}, {"N","L"}, {"P"} }
 ShapesAll == { <<0>>, <<0,1>>, <<0,1,2>>, <<0,1,1>>, <<0,1,2,3>>, <<0,1,2,2>>, <<0,1,1,3>>, <<0,1,2,1>>, <<0,1,1,1>> }
 Shapes3 == { <<0>>, <<0,1>>, <<0,1,2>>, <<0,1,1>> }
-CONSTANT Shapes
+FlagSetsQ == { {}, {"L"}, {"U"}, {"L","U"}, {"G","L"}, {"G","U"}, {"N","L"}, {"N","U"}, {"P"}, {"P","U"}, {"P","G"}, {"G","N"} }
+CONSTANTS Shapes, Flags3
 VARIABLES shape, types, fl, v
 N1 == CHOOSE n \in Names : TRUE
 Mk == WithModuleGlobals([i \in 1..Len(shape) |-> [type |-> types[i], parent |-> shape[i], flags |-> [n \in Names |-> fl[i]]]])
@@ -16,7 +17,7 @@ TypesOK == types[1] = "module" /\ \A i \in 2..Len(shape) : types[i] # "module"
 ParamsOK == \A i \in 1..Len(shape) : ("P" \in fl[i]) => types[i] = "function"
 Init == /\ shape \in Shapes
         /\ types \in [1..Len(shape) -> {"module", "function", "class"}] /\ TypesOK
-        /\ fl \in [1..Len(shape) -> (IF Len(shape) = 4 THEN Flags4 ELSE FlagSets)] /\ ParamsOK
+        /\ fl \in [1..Len(shape) -> (IF Len(shape) = 4 THEN Flags4 ELSE Flags3)] /\ ParamsOK
         /\ v = "todo"
 Check == LET B == Mk r == Analyze(B, UniformOrd(B, <<N1>>)) IN
          IF (r.err # "") # ErrorD(B, N1) THEN "error presence"
